@@ -32,6 +32,7 @@ func checkC01(w *World, r *Report) {
 	checkNodeConstruction(w, r, "C01.7")
 	checkC01LazyInvariance(w, r, "C01.8")
 	checkNoEmptyCapture(w, r, "C01.9")
+	checkCursorReset(w, r, "C01.10")
 }
 
 // ---- C01.1 --------------------------------------------------------------------------------------------------
@@ -58,37 +59,9 @@ func checkC01Entry(w *World, r *Report) {
 				return
 			}
 			pathArg := c.Call.Args[len(c.Call.Args)-3]
-			okk, why := false, "path argument "+valStr(pathArg)
-			if phi, ok := pathArg.(*ssa.Phi); ok && len(phi.Edges) == 2 {
-				raw, plain := false, false
-				for i, e := range phi.Edges {
-					_, f, isLoad := loadedField(e)
-					if !isLoad {
-						continue
-					}
-					switch f.Name() {
-					case "RawPath":
-						for _, ft := range factsOnEdge(phi.Block().Preds[i], phi.Block()) {
-							if bo, ok := ft.Cond.(*ssa.BinOp); ok && bo.Op == token.GTR && ft.Val {
-								if z, ok := constInt(bo.Y); ok && z == 0 {
-									raw = true
-								}
-							}
-						}
-						// the RawPath load sits in the then-block whose fact is at block level
-						if lb := e.(*ssa.UnOp).Block(); !raw {
-							for _, ft := range factsAtBlock(lb) {
-								if bo, ok := ft.Cond.(*ssa.BinOp); ok && bo.Op == token.GTR && ft.Val {
-									raw = true
-								}
-							}
-						}
-					case "Path":
-						plain = true
-					}
-				}
-				okk, why = raw && plain, fmt.Sprintf("RawPath(if non-empty)=%v Path(otherwise)=%v", raw, plain)
-			}
+			raw, plain, other := requestPathSelection(pathArg, 0)
+			okk := raw && plain && other == ""
+			why := fmt.Sprintf("RawPath(if non-empty)=%v Path(otherwise)=%v %s", raw, plain, other)
 			ru.Check("request path in "+FuncName(fn), w.Pos(c.Pos()), "the matcher gets URL.RawPath when it is non-empty, URL.Path otherwise", okk, why)
 		})
 	}
@@ -820,5 +793,209 @@ func checkNoEmptyCapture(w *World, r *Report, id string) {
 		if found == 0 {
 			r.Unrecognised("%s: no delimiter search for a {param} found in %s", id, spec.fn)
 		}
+	}
+}
+
+// requestPathSelection classifies the value handed to the matcher as the request path: it must be URL.RawPath on the
+// paths where RawPath is known to be non-empty and URL.Path on the others; the selection may sit in the function
+// itself (a phi) or in a helper whose returns make it.
+func requestPathSelection(v ssa.Value, depth int) (raw, plain bool, other string) {
+	if depth > 4 {
+		return false, false, "selection too deep"
+	}
+	nonEmptyFact := func(fs []Fact) bool {
+		for _, ft := range fs {
+			bo, ok := ft.Cond.(*ssa.BinOp)
+			if !ok {
+				continue
+			}
+			if z, ok := constInt(bo.Y); ok && z == 0 && ((bo.Op == token.GTR && ft.Val) || (bo.Op == token.NEQ && ft.Val) || (bo.Op == token.EQL && !ft.Val) || (bo.Op == token.LEQ && !ft.Val)) {
+				return true
+			}
+			if s, ok := constString(bo.Y); ok && s == "" && ((bo.Op == token.NEQ && ft.Val) || (bo.Op == token.EQL && !ft.Val)) {
+				return true
+			}
+		}
+		return false
+	}
+	merge := func(r2, p2 bool, o2 string) {
+		raw, plain = raw || r2, plain || p2
+		if o2 != "" {
+			other = o2
+		}
+	}
+	switch x := v.(type) {
+	case *ssa.Phi:
+		for i, e := range x.Edges {
+			if _, f, isLoad := loadedField(e); isLoad && f.Name() == "RawPath" {
+				if nonEmptyFact(factsOnEdge(x.Block().Preds[i], x.Block())) || nonEmptyFact(factsAtBlock(e.(*ssa.UnOp).Block())) {
+					raw = true
+				} else {
+					other = "RawPath selected without a non-empty test"
+				}
+				continue
+			}
+			merge(requestPathSelection(e, depth+1))
+		}
+	case *ssa.UnOp:
+		_, f, isLoad := loadedField(x)
+		switch {
+		case isLoad && f.Name() == "RawPath":
+			if nonEmptyFact(factsAtBlock(x.Block())) {
+				raw = true
+			} else {
+				other = "RawPath selected without a non-empty test"
+			}
+		case isLoad && f.Name() == "Path":
+			plain = true
+		default:
+			other = "path argument " + valStr(v)
+		}
+	case *ssa.Call:
+		callee := x.Call.StaticCallee()
+		if callee == nil || len(callee.Blocks) == 0 || callee.Pkg == nil || callee.Pkg.Pkg.Path() != modulePath {
+			return false, false, "path argument " + valStr(v)
+		}
+		eachInstr(callee, func(in ssa.Instruction) {
+			if rt, ok := in.(*ssa.Return); ok && len(rt.Results) == 1 {
+				merge(requestPathSelection(rt.Results[0], depth+1))
+			}
+		})
+	default:
+		other = "path argument " + valStr(v)
+	}
+	return
+}
+
+// checkCursorReset: the parameter cursor (paramKeyCnt) indexes the parameter table of the node under the cursor
+// (`current.params[paramKeyCnt]`). When the matcher moves `current` to another node — a descent, or the resumption of a
+// skipped alternative — a non-zero cursor of the old node is meaningless; it has to be set to 0 before it is read again.
+// Both names are discovered from the index expressions X.params[Y] of the matcher.
+func checkCursorReset(w *World, r *Report, id string) {
+	ru := r.Rule(id, "the parameter cursor is reset when the node changes: in both matchers, no path advances the cursor Y of X.params[Y], then assigns X, and then reads Y without assigning 0 to it in between", 2)
+	for _, fname := range []string{"lookupByPath", "lookupByDomain"} {
+		af := w.astFuncOf(modulePath, fname)
+		node, cursor := "", ""
+		ast.Inspect(af.decl.Body, func(n ast.Node) bool {
+			if ie, ok := n.(*ast.IndexExpr); ok {
+				if sel, ok := ie.X.(*ast.SelectorExpr); ok && sel.Sel.Name == "params" {
+					if x, ok := sel.X.(*ast.Ident); ok {
+						if y, ok := ie.Index.(*ast.Ident); ok {
+							node, cursor = x.Name, y.Name
+						}
+					}
+				}
+			}
+			return true
+		})
+		if node == "" {
+			r.Unrecognised("%s: no X.params[Y] index expression in %s", id, fname)
+			continue
+		}
+		const (
+			clean = 1 << iota // cursor is 0 or belongs to the node under the cursor
+			advanced          // cursor was advanced for the node under the cursor
+			stale             // cursor was advanced for a node that is no longer under the cursor
+		)
+		type eff struct {
+			reads          []token.Pos
+			moves, resets  bool
+			advances       bool
+			pos            token.Pos
+		}
+		effects := func(nd ast.Node) eff {
+			var e eff
+			var plainLHS ast.Expr
+			switch x := nd.(type) {
+			case *ast.AssignStmt:
+				for i, l := range x.Lhs {
+					if exprStr(l) == node && (x.Tok == token.ASSIGN || x.Tok == token.DEFINE) {
+						e.moves, e.pos = true, x.Pos()
+					}
+					if exprStr(l) == cursor {
+						if x.Tok == token.ASSIGN && i < len(x.Rhs) && exprStr(x.Rhs[i]) == "0" {
+							e.resets, plainLHS = true, l
+						} else {
+							e.advances = true
+						}
+					}
+				}
+			case *ast.IncDecStmt:
+				if exprStr(x.X) == cursor {
+					e.advances = true
+				}
+			}
+			ast.Inspect(nd, func(n ast.Node) bool {
+				if _, isLit := n.(*ast.FuncLit); isLit {
+					return false
+				}
+				if idn, ok := n.(*ast.Ident); ok && idn.Name == cursor && ast.Expr(idn) != plainLHS {
+					e.reads = append(e.reads, idn.Pos())
+				}
+				return true
+			})
+			return e
+		}
+		in := map[*cfg.Block]int{af.g.Blocks[0]: clean}
+		movedAt := map[*cfg.Block]token.Pos{}
+		work := []*cfg.Block{af.g.Blocks[0]}
+		bad := map[token.Pos]token.Pos{}
+		nreads := 0
+		for _, b := range af.g.Blocks {
+			if b.Live {
+				for _, nd := range b.Nodes {
+					nreads += len(effects(nd).reads)
+				}
+			}
+		}
+		for len(work) > 0 {
+			b := work[0]
+			work = work[1:]
+			st, mv := in[b], movedAt[b]
+			for _, nd := range b.Nodes {
+				e := effects(nd)
+				if len(e.reads) > 0 && st&stale != 0 {
+					for _, rp := range e.reads {
+						if _, dup := bad[rp]; !dup {
+							bad[rp] = mv
+						}
+					}
+				}
+				if e.resets {
+					st = clean
+				}
+				if e.advances {
+					st = advanced | (st & stale)
+				}
+				if e.moves {
+					if st&(advanced|stale) != 0 {
+						st = (st & clean) | stale
+						mv = e.pos
+					}
+				}
+			}
+			for _, s := range b.Succs {
+				if !s.Live {
+					continue
+				}
+				if in[s]|st != in[s] {
+					in[s] |= st
+					if movedAt[s] == token.NoPos {
+						movedAt[s] = mv
+					}
+					work = append(work, s)
+				}
+			}
+		}
+		var keys []int
+		for rp := range bad {
+			keys = append(keys, int(rp))
+		}
+		sort.Ints(keys)
+		why := ""
+		for _, k := range keys {
+			why += fmt.Sprintf("%s read at %s may hold the position reached in the node left at %s; ", cursor, w.Pos(token.Pos(k)), w.Pos(bad[token.Pos(k)]))
+		}
+		ru.Check(cursor+" in "+fname, w.Pos(af.decl.Pos()), "set to 0 between every change of `"+node+"` (after an advance) and the next read", why == "", orDefault(strings.TrimSuffix(why, "; "), fmt.Sprintf("%d reads of %s, none stale", nreads, cursor)))
 	}
 }
